@@ -133,6 +133,7 @@ package environment
 // (That the permutation is ordered is not stated: the ordering is delegated to sort.Slice, whose effect
 // is modelled as "some permutation".)
 //@ func sortHelper(args []object.Object, lowerCase bool, doReverse bool) (result object.Object)
+//@   tags C17 C04 C16
 //@   requires len(args) >= 1 && isArray(args[0]) && validObj(args[0]) && forall j in 0..len(elems(args[0])) :: validObj(elems(args[0])[j])
 //@   modifies nothing
 //@   ensures @C17 sort.array: isArray(result) && fresh(result) && fresh(elems(result)) && len(elems(result)) == len(elems(args[0]))
@@ -151,6 +152,7 @@ package environment
 //@   panics never
 
 //@ func fnSort(args []object.Object) (result object.Object)
+//@   tags C17 C04 C16
 //@   requires forall i in 0..len(args) :: validObj(args[i])
 //@   requires forall i in 0..len(args) :: isArray(args[i]) ==> forall j in 0..len(elems(args[i])) :: validObj(elems(args[i])[j])
 //@   modifies nothing
@@ -327,6 +329,7 @@ package environment
 //@   panics never
 
 //@ func fnReverse(args []object.Object) (result object.Object)
+//@   tags C17 C04 C16
 //@   requires forall i in 0..len(args) :: validObj(args[i])
 //@   requires forall i in 0..len(args) :: isArray(args[i]) ==> forall j in 0..len(elems(args[i])) :: validObj(elems(args[i])[j])
 //@   modifies nothing
